@@ -1,6 +1,7 @@
 (* C02 — Proleptic Julian and Gregorian dates match the astronomical definition. *)
 From JV Require Import Sem Gen Spec SpecX.
 From JV.Proofs Require Import SpecFacts Cal Core.
+Require JV.Proofs.Glue_C02_core.
 Open Scope Z_scope.
 
 (* the definition: anchor + next-day recurrence; the closed-form labellings satisfy it ... *)
@@ -20,12 +21,12 @@ Print Assumptions C02_definition_unique.
 Theorem C02_julian_labels : forall j, in_i32 j ->
   exists d, Calendar_at_jdn Calendar_JULIAN j = Ret d /\
     (Date_f_year d, Month_discr (Date_f_month d), Date_f_day d) = jlabel j /\ Date_f_jdn d = j /\ Date_f_calendar d = Calendar_JULIAN.
-Proof. intros j H. exact (at_jdn_label CJ j I H). Qed.
+Proof. exact JV.Proofs.Glue_C02_core.C02_julian_labels_lemma. Qed.
 Print Assumptions C02_julian_labels.
 Theorem C02_gregorian_labels : forall j, in_i32 j ->
   exists d, Calendar_at_jdn Calendar_GREGORIAN j = Ret d /\
     (Date_f_year d, Month_discr (Date_f_month d), Date_f_day d) = glabel j /\ Date_f_jdn d = j /\ Date_f_calendar d = Calendar_GREGORIAN.
-Proof. intros j H. exact (at_jdn_label CG j I H). Qed.
+Proof. exact JV.Proofs.Glue_C02_core.C02_gregorian_labels_lemma. Qed.
 Print Assumptions C02_gregorian_labels.
 
 Theorem C02_leap_rules : forall y, in_i32 y ->
@@ -35,24 +36,20 @@ Proof. exact year_kind_proleptic. Qed.
 Print Assumptions C02_leap_rules.
 Theorem C02_leap_rule_meaning : forall y,
   (jleap y = true <-> y mod 4 = 0) /\ (gleap y = true <-> (y mod 4 = 0 /\ (y mod 100 <> 0 \/ y mod 400 = 0))).
-Proof. intros y. split; [exact (jleap_iff y)|exact (gleap_iff y)]. Qed.
+Proof. exact JV.Proofs.Glue_C02_core.C02_leap_rule_meaning_lemma. Qed.
 Print Assumptions C02_leap_rule_meaning.
 
 (* construction: the right day number when it fits in 32 bits, an arithmetic error otherwise, for every year in i32 *)
 Theorem C02_at_ymd_exact_or_arithmetic : forall y m d, in_i32 y -> in_u32 d ->
   Calendar_at_ymd Calendar_JULIAN y m d = Ret (proleptic_at_ymd CJ jleap jdn_j y m d) /\
   Calendar_at_ymd Calendar_GREGORIAN y m d = Ret (proleptic_at_ymd CG gleap jdn_g y m d).
-Proof.
-  intros y m d Hy Hd. split.
-  - exact (at_ymd_proleptic CJ jleap jdn_j J0 y m d (or_introl (conj eq_refl (conj eq_refl (conj eq_refl eq_refl)))) Hy Hd).
-  - exact (at_ymd_proleptic CG gleap jdn_g G0 y m d (or_intror (conj eq_refl (conj eq_refl (conj eq_refl eq_refl)))) Hy Hd).
-Qed.
+Proof. exact JV.Proofs.Glue_C02_core.C02_at_ymd_exact_or_arithmetic_lemma. Qed.
 Print Assumptions C02_at_ymd_exact_or_arithmetic.
 
 (* the day number of a label is the one the definition gives (label of that day is the label) *)
 Theorem C02_day_number_of_label : forall y m d,
   (valid_md (jleap y) m d -> jlabel (jdn_j y m d) = (y, m, d)) /\ (valid_md (gleap y) m d -> glabel (jdn_g y m d) = (y, m, d)).
-Proof. intros y m d. split; intros V; [apply jlabel_iff|apply glabel_iff]; auto. Qed.
+Proof. exact JV.Proofs.Glue_C02_core.C02_day_number_of_label_lemma. Qed.
 Print Assumptions C02_day_number_of_label.
 
 (* the documented range ends, and one day beyond each *)
